@@ -644,7 +644,8 @@ func (g *gen) control(t typ, d int) (node, bool) {
 		names := g.freshNames(n)
 		var ve node
 		if g.r.Chance(65) {
-			ve = g.values(tInt, d-1, true)
+			// the values pass through forms that return what their last form returns (progn, let, let*, a lambda body)
+			ve = g.emptyScopes(g.values(tInt, d-1, true))
 		} else {
 			ve = g.expr(tInt, d-1)
 		}
